@@ -1,3 +1,3 @@
 From Coq Require Import Extraction ExtrOcamlBasic.
 From MTV Require Import Base.Bytes Misc.Session Misc.SessionBase64.
-Extraction "model.ml" step fresh go_dir utf8_valid b64_encode b64_decode i64_of_u64 u64_of_i64 of_be le64.
+Extraction "model.ml" step fresh go_dir utf8_valid coerce_utf8 b64_encode b64_decode i64_of_u64 u64_of_i64 of_be le64.
